@@ -153,13 +153,13 @@ def h_interfere(e1: int, a1: int, e2: int, a2: int) -> bool:
     with NoTracing():
         n, ref = reference()
     plan = []
-    lo1 = int(cube("e_lo", -1))
+    lo1 = min(int(cube("e_lo", -1)), n)  # a cube whose range lies beyond this run's last position explores that last position
     hi1 = max(lo1, min(int(cube("e_hi", n)), n))
     k1 = pick(e1, lo1, hi1)
     if cube("probe", None) is not None:  # paired: the other writer's probe opens at k1 and its add completes at k2 >= k1
         i = int(cube("probe"))
         first = "probe-wipe" if cube("wipe", False) else "probe-create"
-        k2 = pick(e2, k1, min(n, k1 + int(cube("span", 99))))
+        k2 = pick(e2, k1, max(k1, min(n, k1 + int(cube("span", 99)))))  # never before k1: the probe opens before it completes
         if cube("second", "finish") == "wipe":
             # the probe's transient file appears at k1 and is cleaned up at k2; the other writer's copy lands after this writer is done
             plan = [(k1, (first, i)), (k2, ("probe-gone", i)), (n + 1, ("probe-finish", i))]
@@ -169,7 +169,7 @@ def h_interfere(e1: int, a1: int, e2: int, a2: int) -> bool:
         act1 = int(cube("a1")) if cube("a1", None) is not None else pick(a1, 0, len(ACTIONS) - 1)
         plan.append((k1, ACTIONS[act1]))
         if NSTEPS >= 2:
-            k2 = pick(e2, k1, n)
+            k2 = pick(e2, k1, max(k1, n))
             act2 = int(cube("a2")) if cube("a2", None) is not None else pick(a2, 0, len(ACTIONS) - 1)
             plan.append((k2, ACTIONS[act2]))
     env = make_env()
